@@ -7,8 +7,10 @@ git diff --quiet || { echo "repo dirty"; exit 9; }
 git apply "$P" || { echo "patch does not apply"; exit 9; }
 for id in "$@"; do
   s=$(date +%s)
+  cp /verif/evidence/$id.json /tmp/evidence_keep_$id.json 2>/dev/null
   timeout 1800 /verif/run/check.sh "$id" "$TIER" > /tmp/patch_try_$id.log 2>&1
   rc=$?
+  cp /tmp/evidence_keep_$id.json /verif/evidence/$id.json 2>/dev/null; rm -f /tmp/evidence_keep_$id.json
   echo "$id rc=$rc $(( $(date +%s)-s ))s"; grep -E "^VIOLATION|^  harness=|^ENGINE|^KNOWN" /tmp/patch_try_$id.log | head -6
 done
 cd /repo && git checkout -- .
